@@ -179,6 +179,7 @@ def mkU (tbl : CharTable) : UData where
   upper := fun c => ((tbl.find c).map (·.upper)).getD [c]
   lower := fun c => ((tbl.find c).map (·.lower)).getD [c]
   width := fun t => (t.map (fun c => ((tbl.find c).map (·.width)).getD 0)).sum
+  cwidth := fun c => ((tbl.find c).map (·.width)).getD 1
 
 def mkS (tbl : CharTable) : Segmenter :=
   uaxSeg (fun c => ((tbl.find c).map (·.gcb)).getD "Other")
